@@ -23,6 +23,9 @@ Pdus ==
           v \in 0..2, f \in {0, 1}, a \in V6, n \in A4}
   \cup {[t |-> "end_of_data", ver |-> v, sess |-> s, serial |-> x, refresh |-> r, retry |-> r2, expire |-> <<0, 0, 28, 32>>] :
           v \in 0..2, s \in S2, x \in A4, r \in A4, r2 \in {<<0, 0, 2, 88>>}}
+  \* timers are three numbers, not an ordered triple: expire below refresh, retry as long as expire
+  \cup {[t |-> "end_of_data", ver |-> v, sess |-> s, serial |-> <<0, 0, 0, 7>>, refresh |-> <<0, 0, 14, 16>>, retry |-> r2, expire |-> e] :
+          v \in 1..2, s \in S2, r2 \in {<<0, 0, 2, 88>>, <<0, 0, 28, 32>>}, e \in {<<0, 0, 11, 184>>, <<0, 0, 28, 32>>}}
   \cup {[t |-> "router_key", ver |-> v, flags |-> f, ski |-> [i \in 1..20 |-> 160 + i], asn |-> n, info |-> k] :
           v \in 1..2, f \in {0, 1}, n \in A4, k \in Infos}
   \cup {[t |-> "aspa", ver |-> v, flags |-> f, customer |-> n, providers |-> p] : v \in {2}, f \in {0, 1}, n \in A4, p \in Provs}
